@@ -28,7 +28,8 @@ def tag_id(intern, t):
 
 
 def g_tags(intern, ts):
-  return g_list(sorted((g_N(tag_id(intern, t)) for t in ts), key=lambda s: int(s.split("%")[0])))
+  return g_list(sorted((g_N(tag_id(intern, t)) for t in sorted(ts, key=lambda t: t.__name__)),
+                       key=lambda s: int(s.split("%")[0])))
 
 
 def g_hkey(intern, k):
